@@ -58,7 +58,8 @@ def justified : List ((List Char × List Char × List Char × Nat) × String) :=
   (("generator/naming/inference.rs".toList, "try_from".toList, "unwrap".toList, 0), "guarded by is_i64()/is_f64() checks"),
   (("generator/naming/inference.rs".toList, "try_from".toList, "unwrap".toList, 1), "guarded by is_i64()/is_f64() checks"),
   (("generator/naming/operations.rs".toList, "trim_common_affixes".toList, "unwrap".toList, 0), "slice has >= 2 elements on this path (match on [] | [_] returned earlier)"),
-  (("generator/postprocess/response_enum.rs".toList, "compute_replacements".toList, "unwrap".toList, 0), "group has > 1 element")]
+  (("generator/postprocess/response_enum.rs".toList, "compute_replacements".toList, "unwrap".toList, 0), "group has > 1 element"),
+  (("utils/schema_ext.rs".toList, "infer_union_variant_label".toList, "syn::parse_str".toList, 0), "result only inspected with is_ok() (is the inferred label an identifier?), not unwrapped; added by the repair of F09-10")]
 
 /-- every such construct found in the CURRENT sources is in the reviewed list: a new `unwrap`,
 `expect`, `panic!`, `format_ident!`, `Ident::new`, token re-parse … breaks this proof. -/
